@@ -67,6 +67,9 @@ class DelegWorld(GraphWorld):
     def load_attr(self, ip, obj, attr, node):
         if isinstance(obj, GraphParam):
             return BoundMethod(SelfV(), attr)
+        if isinstance(obj, SelfV) and attr == "edge_removal":
+            # the helper must behave the same on removal-enabled and accumulative graphs
+            return Const(self.choose("edge_removal"))
         return super().load_attr(ip, obj, attr, node)
 
     def call_method(self, ip, obj, name, args, kwargs, node):
